@@ -1084,7 +1084,36 @@ def main() -> None:
     mode = sys.argv[1]
     rng = random.Random(f'{hlib.seed()}/{mode}')
     stats: dict = {}
+    out = None
     try:
+        try:
+            out = run_mode(mode, rng, stats)
+        except SystemExit:
+            raise
+        except Exception as exc:    # noqa: BLE001 - the code under test broke down outside a guarded call
+            # (e.g. it cannot read the synthesised base file): reported as a record, judged by TLC
+            import traceback
+            sys.stderr.write(traceback.format_exc())
+            path = {'funcs': 3, 'graph': 4}.get(mode, 2)
+            if mode == 'replay':
+                path = 3
+            out = hlib.RecWriter(sys.argv[path] + '.crash')
+            out.write({'k': 'rt', 'layout': '', 'wseed': 0, 'fmt': mode, 'diff': [], 'error': f'{mode}:{type(exc).__name__}',
+                       'sig': {'kind': 'rt', 'action': 'crash', 'mode': mode, 'src': 'driver'}})
+            stats['crashed'] = True
+        out.close()
+        stats['records'] = out.n
+        stats.setdefault('rle_family', 0)
+        stats.setdefault('finder_edges', 0)
+        stats.setdefault('worlds', 0)
+        print(json.dumps(stats))
+    finally:
+        import shutil
+        shutil.rmtree(TMP, ignore_errors=True)
+
+
+def run_mode(mode: str, rng: random.Random, stats: dict) -> hlib.RecWriter:
+    if True:
         if mode == 'funcs':
             out = hlib.RecWriter(sys.argv[3])
             with open(sys.argv[2]) as f:
@@ -1129,12 +1158,7 @@ def main() -> None:
                 sub(out, random.Random(f'{hlib.seed()}/{ {"prop": "props", "rt": "transplant"}.get(rec["k"], rec["k"]) }'))
         else:
             raise SystemExit(2)
-        out.close()
-        stats['records'] = out.n
-        print(json.dumps(stats))
-    finally:
-        import shutil
-        shutil.rmtree(TMP, ignore_errors=True)
+    return out
 
 
 if __name__ == '__main__':
